@@ -6,8 +6,9 @@ Every function here returns a `Leaky α = (value, trace)`: the value the Rust fu
 list of `Dalek.IR.LeakEvent`s a control-flow / address observer sees:
 
 * `branch b`   for every `if` / `match` / `while` condition / `assert!` evaluated on run-time data;
-* `index i`    for every array access `a[i]` (ALL of them, also those whose `i` is a loop counter: that the index is
-               public is a theorem below, not a modelling decision);
+* `index i`    for every array access written with an index expression `a[i]` (also those whose `i` is a loop
+               counter: that the index is public is a theorem, not a modelling decision); sequential iterator
+               walks (`iter().zip(..)`) are covered by the `loopLen` of their loop;
 * `loopLen n`  for every `for` loop over a range or an iterator;
 * `call name`  for every callee whose own leakage is accounted for elsewhere: the table `callees` at the end of
                this file says for each name whether it is a TRANSLATED item (then its trace is constant by
@@ -1445,5 +1446,63 @@ def callNames : Leak → List String
 
 /-- every `call` event of the trace is listed in `callees` -/
 def callsAccounted (t : Leak) : Bool := (callNames t).all (fun n => callees.any (fun c => c.1 == n))
+
+
+theorem callNames_append (a b : Leak) : callNames (a ++ b) = callNames a ++ callNames b := by
+  induction a with
+  | nil => rfl
+  | cons e a ih => cases e <;> simp [callNames, ih]
+
+theorem callNames_E_ops (e : E) : callNames e.ops = [] := by
+  induction e <;> simp_all [E.ops, callNames_append, callNames]
+
+theorem callNames_opsBody (ss : List S) : callNames (opsBody ss) = [] := by
+  induction ss with
+  | nil => rfl
+  | cons s ss ih => cases s <;> simp [opsBody, S.ops, callNames_append, callNames_E_ops, callNames, ih]
+
+/-- a translated LimbIR kernel calls nothing -/
+@[simp] theorem callNames_Prog_ops (p : Prog) : callNames p.ops = [] := callNames_opsBody p.body
+
+theorem callNames_aopsBody (ss : List AStmt) : callNames (aopsBody ss) = [] := by
+  induction ss with
+  | nil => rfl
+  | cons s ss ih =>
+    have : callNames s.op.leak = [] := by cases s.op <;> rfl
+    simp [aopsBody, callNames_append, this, ih]
+
+/-- a translated AlgIR item calls nothing -/
+@[simp] theorem callNames_AProg_ops (p : AProg) : callNames p.ops = [] := callNames_aopsBody p.body
+
+theorem callNames_flatMap_nil {ι : Type} (xs : List ι) (f : ι → Leak) (h : ∀ x, callNames (f x) = []) :
+    callNames (xs.flatMap f) = [] := by
+  induction xs with
+  | nil => rfl
+  | cons x xs ih => simp [List.flatMap_cons, callNames_append, h, ih]
+
+theorem callNames_rep_nil (n : Nat) (c : Leak) (h : callNames c = []) : callNames (rep n c) = [] := by
+  induction n with
+  | zero => rfl
+  | succ n ih =>
+    have : rep (n + 1) c = c ++ rep n c := by simp [rep, List.replicate_succ]
+    rw [this, callNames_append, h, ih]; rfl
+
+/-- the callees of `Scalar::batch_invert`, for every number of inputs: only the two vector housekeeping calls; all
+arithmetic is translated kernels -/
+theorem scalarBatchInvert_callNames (n : Nat) :
+    callNames (scalarBatchInvertTrace n) = ["vec![one; n]", "Zeroize::zeroize(Vec<UnpackedScalar>)"] := by
+  have h1 : ∀ i, callNames (sbiPass1Trace i) = [] := by
+    intro i; simp [sbiPass1Trace, callNames_append, callNames]
+  have h2 : ∀ i, callNames (sbiPass2Trace i) = [] := by
+    intro i; simp [sbiPass2Trace, callNames_append, callNames]
+  have h3 : ∀ k, callNames (squareMultiplyTrace k) = [] := by
+    intro k
+    simp [squareMultiplyTrace, callNames_append, callNames, callNames_rep_nil]
+  have h4 : callNames montgomeryInvertTrace = [] := by
+    have h5 : callNames (invChain.flatMap (fun st => squareMultiplyTrace st.1)) = [] :=
+      callNames_flatMap_nil _ _ (fun st => h3 st.1)
+    simp [montgomeryInvertTrace, callNames_append, callNames_rep_nil, h5]
+  simp [scalarBatchInvertTrace, callNames_append, callNames, callNames_flatMap_nil _ _ h1,
+    callNames_flatMap_nil _ _ h2, h4]
 
 end Dalek.Model.LeakModels
